@@ -213,7 +213,8 @@ theorem C12_enum_rejected_iff_inadmissible (d : EnumDecl) (rules : Option EnumRu
   buildField_enum_isErr d rules lr
 
 /-- a default filter which is not an option: compile error -/
-example : (compileRules { name := "e", number := 2,
+example : (compileRules {
+    name := "e", number := 2,
     schema := .single (.enum { name := "En", defaultPrefix := "EN_", options := ["A", "B"] } none
       (some { text := "f1/df43/s0/ds0/q0/qi-", defaultFilters := ["C"] })) }).isErr = true := by decide
 
